@@ -135,6 +135,33 @@ Definition units_of_shapes (start : nat) (l : list ty) : list (string * ty) :=
   (fix go (i : nat) (bs : list ty) : list (string * ty) :=
      match bs with [] => [] | b :: r => (String.append "T" (nat_to_string i), b) :: go (S i) r end) start bodies.
 
+(* the root and the named types it mentions use the SAME field names for different things (anything the generator keeps per
+   run and keys by a field name or an option path must not leak from one type of the declaration set into another) *)
+Definition adr : ty := TNamed "Adr" (TStruct [("City", t_string); ("Zip", t_int32)]).
+Definition holder : ty :=
+  TNamed "Holder" (TStruct [("Tags", TMap t_string t_int32); ("Addr", adr); ("Attrs", TSlice t_string); ("N", t_string)]).
+Definition vault : ty :=      (* sorts behind the root's name *)
+  TNamed "Vault" (TStruct [("Tags", TSlice t_int32); ("Addr", TPtr adr); ("Attrs", TMap t_string t_string); ("N", t_int32)]).
+Definition shared_names : ty :=
+  TStruct [("Tags", TSlice t_string); ("Addr", TPtr adr); ("Box", holder); ("Attrs", TMap t_string t_int32); ("N", t_int32); ("V", vault)].
+(* by-value struct chains: the only indirection sits three struct levels down, below structs that have none of their own *)
+Definition lim : ty := TNamed "Lim" (TStruct [("Hard", TPtr t_int32); ("Quota", TPtr plain); ("W", t_int32)]).
+Definition acc : ty := TNamed "Acc" (TStruct [("Limits", lim); ("Rate", TScalar SF64)]).
+Definition flat3 : ty := TNamed "Flat3" (TStruct [("In", TNamed "Flat2" (TStruct [("P", plain); ("U", TScalar (SInt KUint16))])); ("B", TScalar SBool)]).
+Definition value_chain : ty :=
+  TStruct [("Plan", acc); ("PPlan", TPtr acc); ("Plans", TSlice acc); ("PM", TMap t_string (TPtr acc)); ("F", flat3); ("N", t_int32);
+           ("FM", TMap (TScalar SF64) plain); ("FP", TMap (TScalar SF32) (TPtr acc))].
+(* exported field names that do not start with an ASCII letter (UTF-8: E-acute "lan", Cyrillic "Imya", O-umlaut "l") *)
+Definition u8 (l : list nat) : string := fold_right (fun n r => String (ascii_of_nat n) r) "" l.
+Definition unicode_names : ty :=
+  TStruct [(u8 [195; 137; 108; 97; 110], t_string); (u8 [208; 152; 208; 188; 209; 143], t_int32);
+           (u8 [195; 150; 108], TSlice leaf); ("Z", TPtr (TNamed "Uni" (TStruct [(u8 [208; 163; 208; 187], t_string); ("A", t_int32)])))].
+
+(* a struct with one field per scalar kind: K0 .. K14 *)
+Definition kinds_struct (f : skind -> ty) (ks : list skind) : ty :=
+  TStruct ((fix go (i : nat) (l : list skind) : list (string * ty) :=
+              match l with [] => [] | k :: r => (String.append "K" (nat_to_string i), f k) :: go (S i) r end) 0 ks).
+
 (* multi-field structs: sibling interference, field order *)
 Definition multi : list ty :=
   [TStruct [("A", t_int32); ("M", TMap t_string t_int32); ("L", TSlice leaf); ("P", TPtr leaf); ("S", t_string); ("B", t_bytes)];
@@ -165,7 +192,16 @@ Definition multi : list ty :=
    (* slices spelled []uint8 (the same Go type as []byte, another type NAME: elements are addressable, it is no bytes leaf),
       and a named struct with its own inspector reached BELOW collection elements (path positions >= 1) *)
    TStruct [("Levels", TSlice (TScalar (SInt KUint8))); ("PLv", TPtr (TSlice (TScalar (SInt KUint8)))); ("B", t_bytes);
-            ("Mids", TSlice mid); ("MM", TMap t_string (TPtr mid)); ("N", t_int32)]].
+            ("Mids", TSlice mid); ("MM", TMap t_string (TPtr mid)); ("N", t_int32)]] ++
+  (* every scalar kind at once (the quick tier's shapes use six representative kinds only: a slip in the code emitted for ONE
+     kind - a conversion snippet, a bit size, a zero literal - must not wait for the thorough tier): as field, behind a pointer,
+     as slice element, as map value and as map key *)
+  [kinds_struct TScalar all_skinds;
+   kinds_struct (fun k => TPtr (TScalar k)) all_skinds;
+   kinds_struct (fun k => TSlice (TScalar k)) all_skinds;
+   kinds_struct (fun k => TMap t_string (TScalar k)) all_skinds;
+   kinds_struct (fun k => TMap (TScalar k) t_string) (filter (fun k => match k with SByte => false | _ => true end) all_skinds);
+   shared_names; value_chain; unicode_names].
 
 Definition rep_shapes : list ty :=
   dedup_ty (shapes1 rep_skinds ++ shapes2 [SString; SInt KInt32] [SInt KInt32; SString]).
